@@ -191,16 +191,29 @@ func b01(b bool) string {
 	return "0"
 }
 
-func (o WOp) encode() string {
+func (o WOp) encode() string { return o.encodeAs(o.ID) }
+
+// icptMod: towards the model an interceptor is `id % icptMod`; the caller's spelling number sp of item id is id + sp*icptMod
+const icptMod = 100
+
+// rawID: the id as the model's caller spells it (the stored one when there is no interceptor)
+func rawID(icpt string, id, sp int) int {
+	if icpt == "" {
+		return id
+	}
+	return id + (sp%2)*icptMod
+}
+
+func (o WOp) encodeAs(id int) string {
 	switch o.K {
 	case "s":
-		return fmt.Sprintf("u/%d/s%d", o.ID, o.V)
+		return fmt.Sprintf("u/%d/s%d", id, o.V)
 	case "a":
-		return fmt.Sprintf("u/%d/a%d", o.ID, o.V)
+		return fmt.Sprintf("u/%d/a%d", id, o.V)
 	case "c":
-		return fmt.Sprintf("u/%d/c%d.%d", o.ID, o.E, o.V)
+		return fmt.Sprintf("u/%d/c%d.%d", id, o.E, o.V)
 	case "d":
-		return fmt.Sprintf("d/%d", o.ID)
+		return fmt.Sprintf("d/%d", id)
 	}
 	return "?"
 }
@@ -228,7 +241,7 @@ func (sc Scenario) driverLine(sched []string) string {
 	for _, p := range sc.Writers {
 		var ops []string
 		for _, o := range p {
-			ops = append(ops, o.encode())
+			ops = append(ops, o.encodeAs(rawID(sc.Icpt, o.ID, o.Sp)))
 		}
 		s := strings.Join(ops, ";")
 		if s == "" {
@@ -265,6 +278,9 @@ func (sc Scenario) driverLine(sched []string) string {
 	ss := strings.Join(acts, ",")
 	if ss == "" {
 		ss = "-"
+	}
+	if sc.Icpt != "" { // the model is given the callers' spellings and canonicalises them itself (initI)
+		return fmt.Sprintf("runi %d %s %s %s %s", icptMod, is, strings.Join(progs, "|"), uo, ss)
 	}
 	return fmt.Sprintf("run %s %s %s %s", is, strings.Join(progs, "|"), uo, ss)
 }
